@@ -4,7 +4,7 @@
    kernel-checked instance obligations over it.
    F, r32 (what a float32 cell keeps), rint (python int()), cval (the numbers 0, 1, 1/2, -1), ofnat, weq (==) stand for
    numpy / PyTables / python and are universally quantified with the hypotheses written out in every statement. *)
-From Coq Require Import String List Bool.
+From Coq Require Import String List Bool Permutation.
 From LNML Require Import Model.H5 Proofs.H5P.
 From Run Require Import Gen_C05 Inst_C05_layout Inst_C05_stores Inst_C05_groups Inst_C05_builder Inst_C05_refuse.
 Import ListNotations.
@@ -76,6 +76,26 @@ Theorem C05_roundtrip_partial :
                 out = sem_rows F cval weq kind (map (fun r => sem32_of F r32 kind (snd r)) rows).
 Proof. exact (gen_select_roundtrip gen all_layouts all_stores). Qed.
 Print Assumptions C05_roundtrip_partial.
+
+(* any number of constructs in one file: each is written under its own group with its group attributes and its table; the
+   reader meets the groups in PyTables' order (an arbitrary rearrangement `order`); what is loaded is, up to that
+   rearrangement, the float32 image of every construct: kind, attribute fields (ids, population / synapse / component
+   references), rows.  Still PARTIAL: `inst` (is one of the two populations instance based) travels with the node instead of
+   being recomputed from the loaded populations; constructs without rows and the embedded XML are outside (see above). *)
+Theorem C05_network_roundtrip_partial :
+  forall (F : Type) (r32 rint : F -> F) (cval : cst -> F) (ofnat : nat -> F) (other : F) (weq : F -> F -> bool) (isint : F -> bool)
+         (order : list (node F) -> list (node F)),
+  (forall x, isint x = true -> rint (r32 x) = r32 x) -> (forall c, c <> CHalf -> rint (cval c) = cval c) ->
+  (forall c, r32 (cval c) = cval c) -> (forall x y, weq x y = true <-> x = y) ->
+  (forall l, Permutation (order l) l) ->
+  forall (cs : list (construct F)) nodes sems,
+  Forall (fun c => Forall (full_wf F cval (c_kind F c)) (c_rows F c) /\ Forall (fun r => typed F isint (snd r)) (c_rows F c)
+                   /\ Forall (fun r => In (fst r) (variants_of (c_kind F c))) (c_rows F c)) cs ->
+  write_net F r32 cval weq gen cs = Some nodes ->
+  load_net F rint cval ofnat other weq order gen nodes = Some sems ->
+  Permutation sems (map (sem32_construct F r32 cval weq) cs).
+Proof. exact (gen_net_roundtrip gen all_layouts all_stores groups). Qed.
+Print Assumptions C05_network_roundtrip_partial.
 
 (* ids, population / synapse / component references, notes, temperature, sizes: every group attribute the
    specification lists is written from the field it is read into *)
